@@ -122,9 +122,12 @@ class HCMonitor:
             st = mon.state.setdefault(id(self_), {"iters": 0, "best": None, "last_impr": 0, "max_iter": self_.max_iterations})
             st["iters"] += 1
             mon.calls += 1
-            bound = max(self_.max_iterations, st["last_impr"] + self_.MIN_ITERATIONS_IMPROVE)
+            # the bound the caller asked for (the limit handed to the entry point; None = the documented default), not what the object made of it
+            asked = getattr(mon, "requested", "unset")
+            limit = self_.max_iterations if asked == "unset" else (99999 if asked is None else int(asked))
+            bound = max(limit, st["last_impr"] + self_.MIN_ITERATIONS_IMPROVE)
             if st["iters"] > bound + 1:
-                raise IterationBoundExceeded("iteration %d exceeds max(max_iterations=%d, last improvement %d + %d)" % (st["iters"], self_.max_iterations, st["last_impr"], self_.MIN_ITERATIONS_IMPROVE))
+                raise IterationBoundExceeded("iteration %d exceeds max(max_iterations=%d, last improvement %d + %d)" % (st["iters"], limit, st["last_impr"], self_.MIN_ITERATIONS_IMPROVE))
             return orig_fix(self_, indices, iterations_stuck)
 
         def alloc(self_, indices):
@@ -162,8 +165,12 @@ def run_alloc(kind, ranges, granule, max_iter, mem_limit):
             import contextlib
             import io
 
-            with contextlib.redirect_stdout(io.StringIO()):
-                total = ta.hillclimb_allocate_live_ranges(g, granule, max_iter, mem_limit)
+            MON.requested = max_iter
+            try:
+                with contextlib.redirect_stdout(io.StringIO()):
+                    total = ta.hillclimb_allocate_live_ranges(g, granule, max_iter, mem_limit)
+            finally:
+                MON.requested = "unset"
     except IterationBoundExceeded as e:
         return None, None, ("iteration-bound", str(e))
     except AllocationError as e:
